@@ -4,8 +4,8 @@ package main
 // gate / pairing (C04), rate limiter executor (C05), internal.FailureResult.
 
 import (
-	"go/token"
 	"fmt"
+	"go/token"
 	"go/types"
 	"strings"
 
@@ -864,13 +864,16 @@ func c06Acquire(c *Ctx) {
 			if spec.boolRet {
 				success = p.State.Facts.Truth(ts, p.Rets[0])
 			} else {
-				switch errClass(p.Rets[0]) {
-				case "nil":
-					success = triT
-				case "ctxerr", "sentinel":
-					success = triF
-				default:
-					success = p.State.Facts.Truth(ts, ts.Cmp("==", p.Rets[0], ts.Nil(nil)))
+				// what the path knows about the returned error comes first: a context error read before the wait and
+				// found nil is nil, whatever ended the wait afterwards
+				success = p.State.Facts.Truth(ts, ts.Cmp("==", p.Rets[0], ts.Nil(nil)))
+				if success == triU {
+					switch errClass(p.Rets[0]) {
+					case "nil":
+						success = triT
+					case "ctxerr", "sentinel":
+						success = triF
+					}
 				}
 			}
 			if success == triU {
@@ -897,6 +900,14 @@ func c06Acquire(c *Ctx) {
 					if isCtx && !(r.Op == "app" && hasPrefix(r.Aux, "Err@") && r.Args[0] == ch.Args[0]) {
 						ok = false
 						c.Fail(spec.fn, c.P.FuncPos(fn), "an acquire ended by the context must return that context's error", pathTrace(ev, p))
+					} else if isCtx {
+						// … read after the wait ended: an error read before it says nothing about why the wait ended
+						for _, e := range p.Events() {
+							if e.Kind == EvCall && len(e.Res) > 0 && e.Res[0] == r && e.Idx < lastSel.Idx {
+								ok = false
+								c.Fail(spec.fn, c.P.FuncPos(fn), "the context's error must be read after the wait was ended by the context, not before", pathTrace(ev, p))
+							}
+						}
 					}
 					if !isCtx && !isGlobal(r, "ErrFull") {
 						ok = false
